@@ -11,6 +11,7 @@ cd "$WT" || exit 2
 git checkout -q -- . && git clean -qfd -e out -e target
 mkdir -p "$(dirname "$DEMO_DEST")" && cp "$DEMO_SRC" "$DEMO_DEST"
 echo "--- demo without patch"; bash -c "$DEMO_CMD" > $L/demo_without.log 2>&1; r0=$?; grep -E "^test result" $L/demo_without.log | tail -2
+rm -f "$DEMO_DEST"   # the demo must not count as an "existing test"
 i=0
 for t in "$@"; do
   i=$((i+1)); echo "--- existing tests without patch: $t"; bash -c "$t -- --test-threads 8" > $L/t${i}_without.log 2>&1
@@ -27,6 +28,7 @@ for t in "$@"; do
   new=$(comm -13 $L/t${i}_without.failed $L/t${i}_with.failed)
   [ -n "$new" ] && { ok=0; echo "tests failing only WITH the patch:"; echo "$new" | head; }
 done
+cp "$DEMO_SRC" "$DEMO_DEST"
 echo "--- demo with patch"; bash -c "$DEMO_CMD" > $L/demo_with.log 2>&1; r1=$?; grep -E "^test result|panicked" $L/demo_with.log | tail -4
 git checkout -q -- . && git clean -qfd -e out -e target
 if [ $r0 -eq 0 ] && [ $r1 -ne 0 ] && [ $ok -eq 1 ]; then echo "CONFIRMED demo_without=pass demo_with=fail no_new_failing_existing_tests (logs $L)"; else echo "NOT-CONFIRMED demo_without_rc=$r0 demo_with_rc=$r1 existing_ok=$ok (logs $L)"; exit 1; fi
